@@ -60,6 +60,24 @@ func (d Matches) Less(i, j int) bool {
 	if di.StartTokenIndex != dj.StartTokenIndex {
 		return di.StartTokenIndex < dj.StartTokenIndex
 	}
+	if di.EndTokenIndex == dj.EndTokenIndex {
+		// Identical spans do occur: textually identical corpus documents match
+		// the same tokens, and Copyright matches carry no token span. Order them
+		// by identity and position so the result never depends on the iteration
+		// order of the maps the candidates were collected from.
+		if di.Name != dj.Name {
+			return di.Name < dj.Name
+		}
+		if di.MatchType != dj.MatchType {
+			return di.MatchType < dj.MatchType
+		}
+		if di.Variant != dj.Variant {
+			return di.Variant < dj.Variant
+		}
+		if di.StartLine != dj.StartLine {
+			return di.StartLine < dj.StartLine
+		}
+	}
 	// Should never get here, but tiebreak based on the larger license.
 	return di.EndTokenIndex > dj.EndTokenIndex
 }
